@@ -408,7 +408,10 @@ def rule_rt_pair(ctx, cfg, F):
                             nm = strip_generics(callee_name(pt))
                             if nm in ("std::result::Result::map", "std::result::Result::and_then", "std::option::Option::map"):
                                 uses = any(r.kind == "agg" and r.id == f.path for a in pt["args"][1:] for r in trp.roots_of_operand(a))
-                                recv_is_wakeup = any(r.kind == "call" and r.id == "ipc::IpcSender::send" for r in trp.roots_of_operand(pt["args"][0]))
+                                rr_ = trp.roots_of_operand(pt["args"][0])
+                                # the value the closure is run on is the result of the wake-up send on EVERY way it can come about: an `Ok(())` made up on a
+                                # branch that skipped the wake-up (because "one is pending anyway") queues a control message the router is never woken for
+                                recv_is_wakeup = bool(rr_) and all(r.kind == "call" and r.id == "ipc::IpcSender::send" for r in rr_)
                                 if uses and recv_is_wakeup:
                                     ok = True
                                     for r in trp.roots_of_operand(pt["args"][0]):
@@ -526,6 +529,16 @@ def rule_stop_flag(ctx, cfg, F):
                 R.violate("%s:ack-wait-outside-guard" % f.path, "the proxy mutex is released before the acknowledgement is awaited: a second shutdown() racing with the first sees the flag set "
                           "and returns while the router thread is still running", f.path, f.loc(late[0]), config=cfg)
                 continue
+        # what the caller handed in (a receiver, a callback with whatever it owns) is not destroyed while the proxy's lock is held: its destructor is user code and may
+        # come back to this proxy (a callback that owns a handle which shuts the router down or registers a route when dropped)
+        user_drops = [b for b in f.live_blocks() if f.term(b)["t"] == "drop" and not f.is_cleanup(b) and
+                      "MutexGuard" not in f.term(b)["ty"] and f.term(b)["ty"].startswith(("std::boxed::Box<dyn", "ipc::OpaqueIpcReceiver", "router::RouterMsg", "ipc::IpcReceiver"))]
+        under = [ub for ub in user_drops if any(ub in f.reachable(0, avoid=[g]) and g in f.reachable(ub) for g in guard_drops)]
+        # (a drop of the not-yet-moved parameter on the unwind-free path after the guard is gone is what the reference does)
+        if under:
+            R.violate("%s:user-value-dropped-under-lock" % f.path, "%s can drop a value handed in by the caller (%s) while it still holds the proxy mutex: a destructor that calls back into the proxy "
+                      "(shutdown, add_route) blocks on that mutex for ever, and with it every later user of the proxy" % (f.path, f.term(under[0])["ty"][:60]), f.path, f.loc(under[0]), config=cfg)
+            continue
         R.ok("%s: flag test dominates %d sends; flag-set edge sends nothing; guard held across the sends%s" % (f.path, len(sends), " and the acknowledgement wait" if sets_flag else ""), f.loc(flag_switch), cfg)
     R.count("proxy_senders[%s]" % cfg, n)
 
